@@ -48,7 +48,7 @@ for _n in ("life", "lifeA", "lifeB"):
 MC_DEPTH["MC_life"] = (6, 7)
 GEN_DEPTH["GEN_lifeA"] = (6, 7)
 GEN_DEPTH["GEN_lifeB"] = (5, 6)
-for _n in ("framer", "bindreply", "codec"):
+for _n in ("framer", "framerBig", "bindreply", "codec"):
     MODULE_OF["MC_" + _n] = MODULE_OF["GEN_" + _n] = "Codec.tla" if _n == "codec" else "Framer.tla"
     MC_DEPTH["MC_" + _n] = None
     GEN_DEPTH["GEN_" + _n] = None
@@ -60,7 +60,7 @@ MC_DEPTH.update({"MC_auth": (5, 7), "MC_noauth": (3, 4), "MC_nonce": None})
 GEN_DEPTH.update({"GEN_auth": (4, 5), "GEN_noauth": (2, 3), "GEN_nonce": None})
 
 
-NO_SIM = {"GEN_bindreply", "GEN_disp_serverstream", "GEN_steps", "GEN_clienttxnLA", "GEN_clienttxnLB", "GEN_clienttxnLC", "GEN_clienttxnLD", "GEN_clienttxnLE", "GEN_clienttxnB", "GEN_codec", "GEN_nonce", "GEN_noauth", "GEN_mtu", "GEN_mtu1200", "GEN_ltcred", "GEN_relaygenOne", "GEN_relaygenTop"}
+NO_SIM = {"GEN_bindreply", "GEN_framerBig", "GEN_disp_serverstream", "GEN_steps", "GEN_clienttxnLA", "GEN_clienttxnLB", "GEN_clienttxnLC", "GEN_clienttxnLD", "GEN_clienttxnLE", "GEN_clienttxnB", "GEN_codec", "GEN_nonce", "GEN_noauth", "GEN_mtu", "GEN_mtu1200", "GEN_ltcred", "GEN_relaygenOne", "GEN_relaygenTop"}
 
 
 def depth(table, name, t):
@@ -187,9 +187,17 @@ def c08_run(ctx):
 
 def c09_run(ctx):
     core_run(["MC_disp_serverudp", "MC_disp_serverstream", "MC_disp_client", "MC_framer"],
-             ["GEN_disp_serverudp", "GEN_disp_serverstream", "GEN_disp_client", "GEN_framer", "GEN_tcpB", "GEN_auth"])(ctx)
+             ["GEN_disp_serverudp", "GEN_disp_serverstream", "GEN_disp_client", "GEN_framer", "GEN_framerBig", "GEN_tcpB", "GEN_auth"])(ctx)
     if not ctx.violations:   # well-formed requests of several parties at once: nothing may wedge the server (real time)
         server_rt(ctx)
+
+
+def clientconn_attribute(ctx, exlines, badrel, module, cfg):
+    """TraceClientConn.tla is C13's specification; a rejected wire event that carries application data (a payload on the
+    wrong channel, an altered or duplicated payload) contradicts C05 as well."""
+    import json as _json
+    ev = _json.loads(exlines[badrel]).get("e")
+    return {ev}, ({"C13", "C05"} if ev in ("ChanData", "SendInd", "Read") else {"C13"})
 
 
 def c13_run(ctx):
@@ -220,6 +228,9 @@ def c05_run(ctx):
     if not ctx.violations:
         n = 24 if ctx.tier == "quick" else 300
         ctx.trace_validate("relay", "TestRelayTrace", "TraceRelay.tla", "TraceRelay.cfg", n)
+    if not ctx.violations:   # parallel writers on the relayed socket (real time): what reaches the wire is what was written
+        ctx.trace_validate("clientconn-rt", "TestClientConnRT", "TraceClientConn.tla", "TraceClientConnRT.cfg", 2 if ctx.tier == "quick" else 20,
+                           attribute=clientconn_attribute)
     if not ctx.violations:
         server_trace(ctx)
 
@@ -270,7 +281,7 @@ PROPS = {
                              "the framer walk (Framer.tla) supplies the stream-progress half: a successful read consumes at least one byte for every frame shape including lengths 0xFFEC-0xFFFF",
                              "absence of panics for ALL byte strings is sampled, not decided: a parser fault on a byte pattern that no shape distinguishes and no mutation hits is missed"]),
     "C10": dict(title="stream framing independent of segmentation, always progresses", level="model_checking",
-                run=core_run(["MC_framer", "MC_bindreply"], ["GEN_framer", "GEN_bindreply"]),
+                run=core_run(["MC_framer", "MC_bindreply"], ["GEN_framer", "GEN_framerBig", "GEN_bindreply"]),
                 assumptions=["frame sizes use the intended arithmetic in unbounded integers (Framer.tla); the catalogue has 93 streams of 1-3 frames "
                              "(ChannelData lengths 0,1,3,4,5,8,100,65531..65535 with numbers 0x4000/0x4001/0x5000/0x6000/0x7FFF, STUN lengths 0,4,8,100,65512,65516,65532, junk)",
                              "segmentations: byte-sized cuts within 24 bytes after a frame start and 12 before its end, and cuts at end-1/end/end+1/+4/+9/+20 of the current frame and of the stream",
